@@ -993,6 +993,12 @@ def run(tier):
     except Exception as ex:  # noqa
         rep.obligation("sdp:oracle stream runs", False, repr(ex))
 
+    try:
+        import c10_sdps
+        c10_sdps.run(rep, tier, rng)
+    except Exception as ex:  # noqa
+        rep.obligation("sdps:stream runs", False, repr(ex))
+
     return rep.finish(
         rule="live: seeded call sequences (1..8 calls, lengths at packet-size boundaries, both transports, both cmd_exception settings) "
              "against the reference bootloader; faults: for each short single-call trace every byte position x fault kind (bit flip, byte "
